@@ -205,6 +205,7 @@ class Interp:
         self.next_read = 0
         self.reads = {}                   # rid -> {"prim":, "n":, "loc":}
         self.loop_stack = []              # domains of the enclosing loops
+        self.break_envs = []              # per enclosing loop: [(cond, env at a `break`)] — merged into the env after the loop
         self.notes = []
         self.cond_stack = []
         self._variant_cache = {}
@@ -376,6 +377,8 @@ class Interp:
             val, evs, ex = self.sub_events(lambda: thunk(e2))
             self.cond_stack.pop()
             results.append((cond, val, evs, ex, e2))
+            if ex is not None and ex.kind == "break" and self.break_envs:
+                self.break_envs[-1].append((cond, e2))
             if cond is True or (isinstance(cond, tuple) and cond and cond[0] == "else"):
                 break
         if len(results) == 1 and results[0][0] is True:
@@ -710,13 +713,22 @@ class Interp:
     def e_LetExpr(self, n, env):
         raise Unsupported("let expression outside if")
 
+    def merge_breaks(self, env, breaks):
+        """locals assigned on a path that left the loop through `break` may hold that value after the loop"""
+        for cond, e2 in breaks:
+            for k2, v2 in e2.items():
+                if k2 in env and env[k2] != v2:
+                    env[k2] = ("phi", ((cond, v2), (("else", (cond,)), env[k2])))
+
     def e_Loop(self, n, env):
         # generic loop: body interpreted once inside an unknown domain
         dom = ("dom", "loop@" + core.loc(n))
         self.loop_stack.append(dom)
+        self.break_envs.append([])
         e2 = env
         res, evs, ex = self.sub_events(lambda: self.eval_block(n["b"], e2))
         self.loop_stack.pop()
+        self.merge_breaks(env, self.break_envs.pop())
         if evs:
             self.emit(("rep", dom, evs, core.loc(n)))
         if ex and ex.kind == "return":
@@ -812,6 +824,7 @@ class Interp:
                     raise
             return UNIT
         self.loop_stack.append(dom)
+        self.break_envs.append([])
 
         def run():
             elem = self.stream_elem(s)
@@ -824,6 +837,7 @@ class Interp:
                 raise
         _, evs, ex = self.sub_events(run)
         self.loop_stack.pop()
+        self.merge_breaks(env, self.break_envs.pop())
         if evs:
             self.emit(("rep", dom, evs, loc))
         if ex is not None and ex.kind == "return":
@@ -1138,3 +1152,42 @@ def value_alternatives(t):
                 out.append((expand_else(cond) + cs, v))
         return out
     return [((), t)]
+
+
+def find_phi(t):
+    if isinstance(t, tuple) and t:
+        if t[0] == "phi":
+            return t
+        for x in t:
+            r = find_phi(x)
+            if r is not None:
+                return r
+    return None
+
+
+def replace_term(t, old, new):
+    if t == old:
+        return new
+    if isinstance(t, tuple):
+        return tuple(replace_term(x, old, new) for x in t)
+    return t
+
+
+def split_phis(t, conds=(), limit=64):
+    """[(conds, t')] — every phi inside t expanded into its alternatives (consistent with conds), t' phi-free"""
+    out = []
+    work = [(tuple(conds), t)]
+    while work:
+        cs, cur = work.pop()
+        cur = resolve(cur, cs)
+        ph = find_phi(cur)
+        if ph is None:
+            out.append((cs, cur))
+            continue
+        for cond, x in ph[1]:
+            c2 = cs + expand_else(cond)
+            if consistent(c2):
+                work.append((c2, replace_term(cur, ph, x)))
+        if len(out) + len(work) > limit:
+            raise Unsupported("too many phi alternatives")
+    return out
